@@ -233,7 +233,7 @@ def one_request(res, sb, sw_holder, write, comps, method, cond, observe):
             sw_holder.pop(k).dispose()
 
 
-ALPHA = ["", ".", "..", "a", "sub", "f.txt", "h.txt", "a/b", "../outside.txt", "\x00", "f.txt\x00", "~", "ö"]
+ALPHA = ["", ".", "..", "a", "sub", "f.txt", "h.txt", "a/b", "../outside.txt", "\x00", "f.txt\x00", "~", "ö", "%2e%2e", "..%2foutside.txt"]
 METHODS = (GET, PUT, DELETE, POST, FETCH)
 CONDS = ("none", "inm", "im-empty", "im-wrong")
 
@@ -251,8 +251,6 @@ def job(arg):
                     for write in (False, True):
                         for cond in CONDS:
                             for obs in (False, True):
-                                if obs and method != GET:
-                                    continue
                                 one_request(res, sb, holder, write, comps, method, cond, obs)
             res.sample({"path": list(items[-1]), "method": "GET/PUT/DELETE/POST/FETCH", "write": [False, True], "cond": list(CONDS)})
         elif kind == "paths3":
@@ -268,8 +266,6 @@ def job(arg):
                     for write in (False, True):
                         for cond in CONDS:
                             for obs in (False, True):
-                                if obs and method != GET:
-                                    continue
                                 one_request(res, sb, holder, write, comps, method, cond, obs)
             res.sample({"path": ["", "<sandbox components>", "outside.txt"], "method": "all"})
         elif kind == "blocks":
